@@ -13,6 +13,6 @@ import (
 func main() {
 	copyh.Main("C01",
 		"distinct (graph, root, initial destination, mode, store pairing, K, MapRoot/platform) whose reachable part has >= 3 nodes and meets an already-present node, a shared node, a duplicate or foreign successor or a subject link",
-		copyh.Budget{Main: 260, Contention: 30, Twin: 30, CbFail: 20, Reps: 0},
-		copyh.Budget{Main: 3000, Contention: 400, Twin: 200, CbFail: 200, Reps: 4})
+		copyh.Budget{Main: 1000, Contention: 150, Twin: 50, CbFail: 80, Reps: 0},
+		copyh.Budget{Main: 5000, Contention: 800, Twin: 300, CbFail: 400, Reps: 4})
 }
